@@ -1353,6 +1353,11 @@ class QuicConnection:
                 data={"client_alpns": self._configuration.alpn_protocols},
             )
 
+        # forget the packets sent before a Retry or Version Negotiation packet
+        # made us start over, they are no longer in flight
+        for space in self._loss.spaces:
+            self._loss.discard_space(space)
+
         self._close_at = now + self._idle_timeout()
         self._initialize(self._peer_cid.cid)
 
